@@ -2,6 +2,7 @@ use clap::Parser;
 use jawk::go;
 use jawk::Cli;
 use std::cell::RefCell;
+use std::io::Write;
 use std::rc::Rc;
 
 fn main() {
@@ -10,7 +11,9 @@ fn main() {
     let stdin = Box::new(std::io::stdin);
     let stderr = Rc::new(RefCell::new(std::io::stderr()));
 
-    if let Err(err) = go(cli, stdout, stderr, stdin) {
+    let result =
+        go(cli, stdout.clone(), stderr, stdin).and_then(|()| Ok(stdout.borrow_mut().flush()?));
+    if let Err(err) = result {
         eprintln!("{err}");
         std::process::exit(-1);
     }
